@@ -104,3 +104,26 @@ fn dsim_entry() {
         Err(_) => assert!(count == 0, "only an empty map has no entry to fall back to"),
     }
 }
+
+//@ harness gvar_xy_split kind=bounded:2points_one_run_across_the_X_Y_boundary fns=TupleVariationHeader::variation_data,TupleVariationHeader::read_point_numbers,packed_deltas::read timeout=900
+#[kani::proof]
+#[kani::unwind(8)]
+fn gvar_xy_split() {
+    // gvar tuple data: packed point numbers, then ALL X deltas followed by ALL Y deltas as ONE packed sequence - a run may span the
+    // boundary between the two (OpenType "Packed deltas"). Two points, all points referenced, one run of four 8-bit deltas.
+    let d: [u8; 4] = kani::any();
+    let data = [0x00u8, 0x03, d[0], d[1], d[2], d[3]];
+    let header: TupleVariationHeader<'_, Gvar> = TupleVariationHeader {
+        variation_data_size: 6,
+        tuple_flags_and_index: 0x2000, // PRIVATE_POINT_NUMBERS
+        peak_tuple: None,
+        intermediate_region: None,
+        data: &data,
+        variant: PhantomData,
+    };
+    let v = header.variation_data(gvar::NumPoints::from_raw(2), None).unwrap();
+    assert!(v.len() == 2);
+    assert!(v.x_coord_deltas.len() == 2 && v.y_coord_deltas.len() == 2);
+    assert!(v.x_coord_deltas[0] == d[0] as i8 as i16 && v.x_coord_deltas[1] == d[1] as i8 as i16, "the first half of the packed sequence are the X deltas");
+    assert!(v.y_coord_deltas[0] == d[2] as i8 as i16 && v.y_coord_deltas[1] == d[3] as i8 as i16, "the second half are the Y deltas, also when one run covers both");
+}
